@@ -145,10 +145,10 @@ def table():
             continue
         m = json.load(open(mp))
         for p, x in sorted(m.get('checks', {}).items()):
-            rows.append(f"| {sid} | {m['breaks_property']} | {p} {x['tier']} | {'caught' if x['caught'] else 'MISSED'} | {x.get('first','').replace('----','').strip()} |")
+            rows.append(f"| {sid} | {m['breaks_property']} | {p} {x['tier']} ({x.get('applied_by','apply')}) | {'caught' if x['caught'] else 'MISSED'} | {x.get('first','').replace('----','').strip()} |")
         if m.get('outside_property'):
             rows.append(f"| {sid} | {m['breaks_property']} | - | outside the property as stated | {m['outside_property']} |")
-    print('| seeded change | breaks | check run | verdict | first report |\n|---|---|---|---|---|')
+    print('| seeded change | written against | check run (patch applied by) | verdict | first report |\n|---|---|---|---|---|')
     print('\n'.join(rows))
 
 if __name__ == '__main__':
